@@ -256,7 +256,9 @@ def drive(recipe):
                   "nontrivial": L >= 1}}
     try:
         # a caller may choose the grid: any nphi >= 2L+1 and ntheta >= L+1 (odd or even) is an exact quadrature for the band limit
-        sht = SHT(L, nphi=recipe["grid"][0], ntheta=recipe["grid"][1]) if recipe.get("grid") else SHT(L)
+        # the band limit may come out of an integer array (np.arange, a header field): same object
+        Larg = (L, np.int64(L), np.int32(L))[recipe["seed"] % 3]
+        sht = SHT(Larg, nphi=recipe["grid"][0], ntheta=recipe["grid"][1]) if recipe.get("grid") else SHT(Larg)
     except Exception as e:                   # an exception of the implementation is an observation
         t["exc"] = type(e).__name__
         return t
@@ -291,6 +293,12 @@ def drive(recipe):
         t["w"] = [fx(2.0 * math.pi * x) for x in w]
     ne = recipe.get("ne", 0)
     epts = [(rng.uniform(0.05, math.pi - 0.05), rng.uniform(0.0, 2 * math.pi)) for _ in range(ne)]
+    # the azimuth is periodic, not bounded: what arctan2 returns (negative angles) and angles past a full turn are the same points
+    for k in range(len(epts)):
+        if (recipe["seed"] + k) % 3 == 0:
+            epts[k] = (epts[k][0], epts[k][1] - 2 * math.pi * (1 + (k % 2)))
+        elif (recipe["seed"] + k) % 7 == 0:
+            epts[k] = (epts[k][0], epts[k][1] + 2 * math.pi)
     if ne >= 4:
         # the poles themselves and points a fraction of a degree away from them (all m != 0 terms vanish only AT the pole)
         near = [0.0, math.pi, 1.0e-3, 3.0e-3, math.pi - 2.0e-3, 4.4e-3, 1.0e-12, math.pi - 1.0e-12]
